@@ -524,6 +524,7 @@ func boolList(bs []bool) string {
 func main() {
 	a := common.ParseArgs()
 	run := common.NewRun(a, "C17", "HV.Conc.Vigil")
+	run.Shard = 200
 	run.Meta.Rule = "forced: a schedule of thread-release tokens over W waiters and N operations of one real vigil, executed through the hook points and replayed through Conc/Vigil.v; non-trivial = some waiter was parked between its emptiness check and cond.Wait (the lost-wake-up window) at least once; stress/destroy/poll cases are non-trivial when at least one operation was in flight when the wait started"
 	rng := common.NewRng(a.Seed, "C17")
 	rig.Quiet()
